@@ -431,6 +431,21 @@ def _(p, i, r):
     return i
 
 
+@op("V31b", "ternary_on_continuation_line", "TERNARY_FBIDDEN", ("stmt",))
+def _(p, i, r):
+    l = p.lines[i]
+    j = _assign_stmt(l)
+    if j is None or _is_split(l):
+        return None
+    d = _indent_of(l)
+    l.segs[j + 2:] = [("zz", "id:var"), ("\n", "ws:nl"), IND(d + 1), ("?", "op:tern"), SP, ("1", "const:int"), SP,
+                      (":", "op:tern"), SP, ("0", "const:int"), (";", "punct")]
+    if not _fits(l):
+        return None
+    l.meta["anyline_within"] = 1
+    return i, 1
+
+
 def _void_param(l):
     for j in range(len(l.segs) - 2):
         if l.segs[j][0] == "(" and l.segs[j + 1] == ("void", "type") and l.segs[j + 2][0] == ")":
@@ -569,7 +584,8 @@ def _(p, i, r):
 @op("V40", "global_no_g", "GLOBAL_VAR_NAMING", ("global",))
 def _(p, i, r):
     l = p.lines[i]
-    if _rename_on_line(l, "id:global", lambda n: "k_" + n[2:], r) is None:
+    # without any prefix, or with another one
+    if _rename_on_line(l, "id:global", (lambda n: "k_" + n[2:]) if r.random() < 0.5 else (lambda n: "q" + n[2:] + "x"), r) is None:
         return None
     return i
 
@@ -577,7 +593,7 @@ def _(p, i, r):
 @op("V41", "typedef_no_t", "USER_DEFINED_TYPEDEF", ("td_close",), ("h",))
 def _(p, i, r):
     l = p.lines[i]
-    if _rename_on_line(l, "id:type", lambda n: "x_" + n[2:], r) is None:
+    if _rename_on_line(l, "id:type", (lambda n: "x_" + n[2:]) if r.random() < 0.5 else (lambda n: "q" + n[2:] + "x"), r) is None:
         return None
     return i
 
@@ -586,7 +602,8 @@ def _(p, i, r):
 def _(p, i, r):
     # plain (non-typedef) definition with a tag that lacks its s_/u_/e_ prefix
     which = r.choice(["struct", "union", "enum"])
-    new = [Line("td_head", [(which, "kw"), SP, ("x_zz", "id:tag")], 0, -1, utype=which), Line("td_open", [("{", "punct")])]
+    tag = r.choice(["x_zz", "point", "zzq", "color9"])
+    new = [Line("td_head", [(which, "kw"), SP, (tag, "id:tag")], 0, -1, utype=which), Line("td_open", [("{", "punct")])]
     if which == "enum":
         new.append(Line("td_enum_member", [IND(1), ("ZZ", "id:enumconst")], 1))
     else:
@@ -1006,6 +1023,22 @@ def _(p, i, r):
            Line("stmt", [IND(1), ("zz", "id:var"), SP, ("=", "op:assign"), SP, ("1", "const:int"), (";", "punct")], 1, -1),
            Line("blank", [])]
     p.lines[i:i] = new
+    return i
+
+
+@op("V71a", "line_too_long", "LINE_TOO_LONG", ("global", "proto", "stmt", "decl"), ("c", "h"))
+def _(p, i, r):
+    l = p.lines[i]
+    if _is_split(l) or (l.segs and l.segs[-1][1].startswith("comment")):
+        return None
+    w = l.width()
+    target = r.randint(81, 86)
+    pad = target - w - 7          # ` /* ` + ` */`
+    if pad < 1:
+        return None
+    l.segs += [SP, ("/* " + "x" * pad + " */", "comment:block")]
+    if l.width() != target:
+        return None
     return i
 
 
